@@ -28,6 +28,9 @@ RULE = ("every tree of U(n) (n up to the tier bound) drawn as generated, in chil
         "undefined} x operation (reseed_at, reroot_at_node, reroot_at_edge, reroot_at_midpoint, "
         "to_outgroup_position, randomly_reorient, randomly_rotate, ladderize, reorder) x every target node/edge "
         "of the documented domain x every flag setting x every requested length pair / scripted generator answer; "
+        "plus a stated finite set of large representatives (ladders, balanced trees, stars, a broom with 12..100 "
+        "leaves, see bounds) x {unit, 1-2-3 cyclic} lengths x {rooted, unrooted} x every operation at a stated "
+        "subset of targets and flag settings - exhaustive over that stated set only, same oracle; "
         "a case = one such call on a freshly built tree; non-trivial = the tree has >= 3 leaves")
 ASSUMPTIONS = [
     "reference quantities (leaf set, unrooted splits, path lengths, total length, root distances) are computed by "
@@ -97,6 +100,16 @@ def bounds(tier):
         "rng_seeds": [0, 1, 2, 3], "shuffle_indices": [0, 1, 2, 3, 4, 5],
         "reorient_scripted_shuffle_index_and_update_flag": [[1, False], [3, True]] if q else [[0, False], [1, False], [1, True], [3, True], [5, False]],
         "informational_leaf_targets": not q,
+        "large_representatives": {
+            "trees (kind, leaves)": [[k, n] for k, n, _ in big_shapes()],
+            "labels": "t000..tNNN", "length_patterns": list(BIG_LENS), "rootings": [True, False],
+            "targets": "nodes: seed, first / middle / last non-seed internal node, parent of the first and of the last leaf, "
+                       "deepest internal node; edges: those of the non-seed nodes of that list; outgroups: the same plus "
+                       "first / middle / last node in pre-order and the deepest leaf",
+            "arguments": "each operation with its default flags and with one contrasting flag setting (see big_menu); "
+                         "edge pairs L/2,L/2 L/4,3L/4 0,L; Random(0), Random(1), scripted picks first/middle/last node",
+            "coverage claim": "exhaustive over this stated set only (both tiers identical)",
+        },
     }
 
 
@@ -255,7 +268,173 @@ def chunks(tier):
         for lo in range(0, ns, step):
             for j in range(parts):
                 out.append({"n": n, "lo": lo, "hi": min(ns, lo + step), "part": j, "parts": parts, "tier": tier})
+    for i in range(len(big_shapes())):
+        out.append({"kind": "big", "index": i, "tier": tier})
     return out
+
+
+# ---------------------------------------------------------------------------
+# large representatives (size-triggered defects are invisible in U(n <= 6))
+
+BIG_LENS = ("unit", "cyc123")
+
+
+def labels_for(n):
+    if n <= len(U.LABELS):
+        return U.LABELS[:n]
+    return ["t%03d" % i for i in range(n)]
+
+
+def _ladder(k, left=True):
+    s = 0
+    for i in range(1, k):
+        s = (s, i) if left else (i, s)
+    return s
+
+
+def _balanced(lo, hi):
+    if hi - lo == 1:
+        return lo
+    mid = (lo + hi) // 2
+    return (_balanced(lo, mid), _balanced(mid, hi))
+
+
+def big_shape(kind, n):
+    if kind == "ladder-left":
+        return _ladder(n, True)
+    if kind == "ladder-right":
+        return _ladder(n, False)
+    if kind == "balanced":
+        return _balanced(0, n)
+    if kind == "star":
+        return tuple(range(n))
+    if kind == "broom":      # a ladder of 20 tips whose far end is a star of n - 20 tips
+        s = tuple(range(n - 20))
+        for i in range(n - 20, n):
+            s = (s, i)
+        return s
+    raise ValueError(kind)
+
+
+def big_shapes():
+    out = []
+    for k in (12, 17, 33, 40, 65):
+        out.append(("ladder-left", k, None))
+        out.append(("ladder-right", k, None))
+    for k in (16, 32, 64):
+        out.append(("balanced", k, None))
+    for k in (12, 33, 40, 100):
+        out.append(("star", k, None))
+    out.append(("broom", 60, None))
+    return out
+
+
+def big_lens(pat, k):
+    if pat == "unit":
+        return [None] + [1] * (k - 1)
+    if pat == "cyc123":
+        return [None] + [1 + (i % 3) for i in range(k - 1)]
+    raise ValueError(pat)
+
+
+def expand(case):
+    """(shape, lens, labels, short description) of a case descriptor; large representatives are
+    stored as {"big": [kind, n], "lenpat": name} instead of a written-out shape."""
+    if "big" in case:
+        kind, n = case["big"]
+        shape = big_shape(kind, n)
+        lens = big_lens(case["lenpat"], n_nodes_iter(shape))
+        return shape, lens, labels_for(n), "%s-%d/%s" % (kind, n, case["lenpat"])
+    shape = tup(case["shape"])
+    return shape, case["lens"], labels_for(max(U.shape_leaves(shape)) + 1), None
+
+
+def n_nodes_iter(shape):
+    c = 0
+    stack = [shape]
+    while stack:
+        x = stack.pop()
+        c += 1
+        if not isinstance(x, int):
+            stack.extend(x)
+    return c
+
+
+def big_targets(bf):
+    """Representative node indices (pre-order) of a large tree."""
+    k = bf.k
+    internal = [i for i in range(1, k) if bf.is_internal(i)]
+    leaves = [i for i in range(k) if not bf.is_internal(i)]
+    depth = {0: 0}
+    for i in range(1, k):
+        depth[i] = depth[bf.parent[i]] + 1
+    nodes = [0]
+    if internal:
+        nodes += [internal[0], internal[len(internal) // 2], internal[-1], max(internal, key=lambda i: (depth[i], -i))]
+    nodes += [bf.parent[leaves[0]], bf.parent[leaves[-1]]]
+    nodes = sorted(set(nodes))
+    og = set(i for i in nodes if i != 0)
+    og |= {1, k // 2, k - 1, max(leaves, key=lambda i: (depth[i], -i))}
+    return nodes, sorted(og)
+
+
+def big_menu(bf):
+    """(op, target, args): every operation once with its default flags and once with a contrasting setting,
+    at the representative targets."""
+    nodes, og = big_targets(bf)
+    k = bf.k
+    for i in nodes:
+        yield ("reseed_at", i, {"ub": False, "cb": True, "su": True})
+        yield ("reseed_at", i, {"ub": True, "cb": False, "su": False})
+        yield ("reroot_at_node", i, {"ub": False, "su": True, "cb": True})
+        yield ("reroot_at_node", i, {"ub": True, "su": False, "cb": True})
+        if i != 0:
+            L = bf.nodes[i][2]
+            yield ("reroot_at_edge", i, {"l1": L / 2.0, "l2": L / 2.0, "ub": False, "su": True})
+            yield ("reroot_at_edge", i, {"l1": L / 4.0, "l2": 3 * L / 4.0, "ub": False, "su": False})
+            yield ("reroot_at_edge", i, {"l1": 0, "l2": L, "ub": True, "su": True})
+    yield ("reroot_at_midpoint", None, {"ub": False, "su": True, "cb": True})
+    yield ("reroot_at_midpoint", None, {"ub": True, "su": False, "cb": True})
+    yield ("reroot_at_midpoint", None, {"ub": False, "su": True, "cb": False})
+    for i in og:
+        yield ("to_outgroup_position", i, {"ub": False, "su": True})
+        yield ("to_outgroup_position", i, {"ub": True, "su": False})
+    for sd in (0, 1):
+        yield ("randomly_reorient", None, {"seed": sd, "ub": bool(sd)})
+    for pick in sorted(set([0, k // 2, k - 1])):
+        yield ("randomly_reorient", None, {"pick": pick, "perm": 1, "ub": False})
+    yield ("randomly_rotate", None, {"seed": 0})
+    yield ("randomly_rotate", None, {"perm": 1})
+    yield ("randomly_rotate", None, {"perm": 5})
+    for asc in BOOL:
+        yield ("ladderize", None, {"asc": asc})
+        yield ("reorder", None, {"asc": asc})
+
+
+def run_big(chunk, ctx):
+    kind, n, _ = big_shapes()[chunk["index"]]
+    shape = big_shape(kind, n)
+    k = n_nodes_iter(shape)
+    labels = labels_for(n)
+    ctx.count("big_trees")
+    for pat in BIG_LENS:
+        lens = big_lens(pat, k)
+        sn = ref.mk(shape, lens=list(lens), labels=labels)
+        bf = Before(sn)
+        on_node = bf.midpoint_on_node(make_eq(True))
+        ctx.count("big_midpoint_on_node_inputs" if on_node else "big_midpoint_in_edge_inputs")
+        for rooted in (True, False):
+            for op, target, args in big_menu(bf):
+                case = {"big": [kind, n], "lenpat": pat, "rooted": rooted, "dyadic": True,
+                        "op": op, "target": target, "args": dict(args)}
+                ctx.case(("big", kind, n, pat, rooted, op, target, tuple(sorted(args.items()))))
+                ctx.count("big_calls")
+                ctx.count("big_calls_%s" % op)
+                run_case(case, ctx, bf, True)
+    ctx.maximum("leaves", n)
+    ctx.sample({"large_representative": kind, "leaves": n, "nodes": k, "length_patterns": list(BIG_LENS),
+                "midpoint_on_node_with_unit_lengths": Before(ref.mk(shape, lens=big_lens("unit", k), labels=labels)).midpoint_on_node(make_eq(True))}, 1)
+    return None
 
 
 # ---------------------------------------------------------------------------
@@ -530,15 +709,13 @@ def encoding_splits(tree, labels):
 def run_case(case, ctx, bf=None, deciding=True):
     """Build the tree, apply the operation, evaluate every oracle.  Returns a short
     outcome tag (used by the informational extension)."""
-    shape = tup(case["shape"])
-    lens = case["lens"]
+    shape, lens, labels, short = expand(case)
     rooted = case["rooted"]
     op, target, a = case["op"], case["target"], case["args"]
     eq = make_eq(case.get("dyadic", False))
-    sn = ref.mk(shape, lens=list(lens))
     if bf is None:
-        bf = Before(sn)
-    labels = U.LABELS[:max(U.shape_leaves(shape)) + 1]
+        bf = Before(ref.mk(shape, lens=list(lens), labels=labels))
+    sn = bf.sn
     holder = {}
 
     def call():
@@ -561,10 +738,15 @@ def run_case(case, ctx, bf=None, deciding=True):
         if op != "reroot_at_midpoint":      # (midpoint signatures carry the midpoint class instead)
             sig = parts[0] + unif + ("|" + parts[1] if len(parts) > 1 else "")
         if deciding:
-            ctx.violation(sig, msg, case)
+            ctx.violation(sig, msg if len(msg) <= 1500 else msg[:1500] + " ...", case)
         return sig
 
-    pre = "%s on %s%s target=%r args=%r: " % (op, {True: "[&R]", False: "[&U]", None: ""}[rooted], fmt(sn), target, a)
+    if short is not None:
+        def show(x):        # keep messages about large trees readable
+            return "<tree with %d nodes>" % ref.count_nodes(x)
+    else:
+        show = fmt
+    pre = "%s on %s%s target=%r args=%r: " % (op, {True: "[&R]", False: "[&U]", None: ""}[rooted], short or show(sn), target, a)
     if status == "hang":
         return report("%s|hang" % op, pre + "step budget exceeded at %s" % (val,))
     if status == "exc":
@@ -585,22 +767,24 @@ def run_case(case, ctx, bf=None, deciding=True):
     leaves_after = sorted(x if x is not None else "" for x in ref.leaves(after))
     if leaves_after != bf.leaves:
         inv_ok = False
-        outcome = report("%s%s|leaf-set-changed" % (op, feature), pre + "leaves %s -> %s; result %s" % (bf.leaves, leaves_after, fmt(after)))
+        outcome = report("%s%s|leaf-set-changed" % (op, feature), pre + ("leaves %s -> %s; result %s" % (bf.leaves, leaves_after, show(after)) if short is None else
+                                "leaf set changed: lost %s, gained %s" % (sorted(set(bf.leaves) - set(leaves_after)),
+                                                                          sorted(set(leaves_after) - set(bf.leaves)))))
     elif ref.unrooted_splits(after) != bf.splits:
         inv_ok = False
-        outcome = report("%s%s|unrooted-splits-changed" % (op, feature), pre + "result %s" % fmt(after))
+        outcome = report("%s%s|unrooted-splits-changed" % (op, feature), pre + "result %s" % show(after))
     else:
         pa = ref.path_table(after)
         bad = [(sorted(p), bf.paths[p][0], pa[p][0]) for p in bf.paths if not eq(bf.paths[p][0], pa[p][0])]
         if bad:
             inv_ok = False
             outcome = report("%s%s|path-length-changed" % (op, feature),
-                             pre + "path %s: %r -> %r; result %s" % (bad[0][0], bad[0][1], bad[0][2], fmt(after)))
+                             pre + "path %s: %r -> %r; result %s" % (bad[0][0], bad[0][1], bad[0][2], show(after)))
         else:
             ta = ref.total_length(after)
             if not eq(ta, bf.total):
                 inv_ok = False
-                outcome = report("%s%s|total-length-changed" % (op, feature), pre + "total %r -> %r; result %s" % (bf.total, ta, fmt(after)))
+                outcome = report("%s%s|total-length-changed" % (op, feature), pre + "total %r -> %r; result %s" % (bf.total, ta, show(after)))
             else:
                 # the same facts through the public observers named by the property
                 try:
@@ -629,12 +813,12 @@ def run_case(case, ctx, bf=None, deciding=True):
         if not any(eq(rd[x], D / 2.0) and eq(rd[y], D / 2.0) for (x, y) in pairs):
             outcome = report("reroot_at_midpoint%s|root-not-at-midpoint" % feature,
                              pre + "no most-distant pair (D=%r, pairs %s) is equidistant from the new root: root distances %s; result %s" % (
-                                 D, pairs, sorted(rd.items()), fmt(after)))
+                                 D, pairs, sorted(rd.items()), show(after)))
     elif op == "reroot_at_edge":
         head = bf.clades[target]
         kids = [ref.clade(c) for c in after[3]]
         if head not in kids:
-            outcome = report("reroot_at_edge|root-not-on-edge", pre + "no child of the new root carries the clade %s below the edge; result %s" % (sorted(head), fmt(after)))
+            outcome = report("reroot_at_edge|root-not-on-edge", pre + "no child of the new root carries the clade %s below the edge; result %s" % (sorted(head), show(after)))
         else:
             nd = bf.node_leaf_dist()
             rd = ref.root_distances(after)
@@ -648,14 +832,14 @@ def run_case(case, ctx, bf=None, deciding=True):
                     break
             if bad:
                 outcome = report("reroot_at_edge|root-not-at-requested-distances",
-                                 pre + "leaf %s should be at %r from the new root, is at %r; result %s" % (bad + (fmt(after),)))
+                                 pre + "leaf %s should be at %r from the new root, is at %r; result %s" % (bad + (show(after),)))
     elif op == "to_outgroup_position":
         first = tree._seed_node._child_nodes[0] if tree._seed_node._child_nodes else None
         # an outgroup that is itself an out-degree-one node is removed by the documented
         # suppress_unifurcations=True: then only its clade can be demanded as first child
         same_node = first is nodes[target] or (a.get("su", True) and len(bf.nodes[target][3]) == 1)
         if not same_node or ref.clade(after[3][0]) != bf.clades[target]:
-            outcome = report("to_outgroup_position|outgroup-not-first-child", pre + "result %s" % fmt(after))
+            outcome = report("to_outgroup_position|outgroup-not-first-child", pre + "result %s" % show(after))
     if op in ("reseed_at", "reroot_at_node") and tree._seed_node is not nodes[target]:
         ctx.count("info_seed_is_not_the_requested_node")
     # -- the split set as published by the library when asked to keep it current ---------
@@ -672,6 +856,8 @@ def run_case(case, ctx, bf=None, deciding=True):
 # ---------------------------------------------------------------------------
 
 def run_chunk(chunk, ctx):
+    if chunk.get("kind") == "big":
+        return run_big(chunk, ctx)
     n, tier = chunk["n"], chunk["tier"]
     b = bounds(tier)
     with_info = b["informational_leaf_targets"]
@@ -727,7 +913,8 @@ def run_chunk(chunk, ctx):
 
 def replay(case, ctx):
     case = dict(case)
-    case["shape"] = tup(case["shape"])
+    if "shape" in case:
+        case["shape"] = tup(case["shape"])
     # the library's choice among tied most-distant pairs follows id()-based hashing, so a
     # tie-dependent midpoint failure may need a different memory layout to show again:
     # re-run the same descriptor a bounded number of times (existential over that choice)
